@@ -739,6 +739,7 @@ func passedOver(reads []*batchRead, due int64, id string) string {
 
 func (r *ruleState) onFinish() {
 	s := r.s
+	s.checkHeldBodies()
 	for _, q := range s.Reqs {
 		if q.Responses == 0 && !q.Lost {
 			if s.alive || s.stopped {
